@@ -4,6 +4,8 @@
 //!   `ERROTHER <debug>`              any other error value
 //!   `PANIC`                         the core panicked while handling the shell's response
 //!   `NOEVENT <n>`                   not exactly one event
+//! `D <charset-label|-> <hex body>`: a 200 response with `content-type: text/plain; charset=<label>` (`-`: no charset) consumed with
+//!   `expect_string()`: prints `STR <hex of the string's UTF-8>` / `ERR` / `PANIC`.
 //! `all` as the only argument runs every status 0..=65535 with a 1-byte body.
 use std::io::BufRead;
 use std::panic::{catch_unwind, AssertUnwindSafe};
@@ -76,6 +78,39 @@ fn run_shell_error(kind: &str) -> String {
     format!("{} | SENT {expect}", r.unwrap_or_else(|_| "PANIC".to_string()))
 }
 
+#[derive(Debug)]
+enum SEvent {
+    Got(Result<Response<String>, HttpError>),
+}
+
+fn run_decode(label: &str, hex: &str) -> String {
+    let body: Vec<u8> = (0..hex.len() / 2).map(|i| u8::from_str_radix(&hex[2 * i..2 * i + 2], 16).unwrap_or(0)).collect();
+    let r = catch_unwind(AssertUnwindSafe(|| {
+        let mut cmd: crux_core::Command<Effect, SEvent> = Http::get("http://example.com/").expect_string().build().then_send(SEvent::Got);
+        let Effect::Http(mut req) = cmd.effects().next().expect("one request");
+        let mut b = HttpResponse::status(200);
+        b.body(body.clone());
+        if label == "-" {
+            b.header("content-type", "text/plain");
+        } else {
+            b.header("content-type", format!("text/plain; charset={label}"));
+        }
+        req.resolve(HttpResult::Ok(b.build())).expect("resolves");
+        let evs: Vec<SEvent> = cmd.events().collect();
+        if evs.len() != 1 {
+            return format!("NOEVENT {}", evs.len());
+        }
+        match evs.into_iter().next().unwrap() {
+            SEvent::Got(Ok(mut r)) => match r.take_body() {
+                Some(s) => format!("STR {}", s.bytes().map(|x| format!("{x:02x}")).collect::<String>()),
+                None => "NOBODY".to_string(),
+            },
+            SEvent::Got(Err(_)) => "ERR".to_string(),
+        }
+    }));
+    r.unwrap_or_else(|_| "PANIC".to_string())
+}
+
 fn main() {
     std::panic::set_hook(Box::new(|_| {}));
     let args: Vec<String> = std::env::args().collect();
@@ -88,6 +123,12 @@ fn main() {
     for line in std::io::stdin().lock().lines() {
         let line = line.unwrap();
         let mut it = line.split_whitespace();
+        if line.starts_with("D ") {
+            let mut p = line[2..].split_whitespace();
+            let (l, h) = (p.next().unwrap_or("-"), p.next().unwrap_or(""));
+            println!("{}", run_decode(l, h));
+            continue;
+        }
         if line.starts_with("E ") {
             println!("{}", run_shell_error(line[2..].trim()));
             continue;
